@@ -5,7 +5,7 @@ from report import Rule
 from mirlib import callee_name, op_const, op_place, backward_slice
 import mustlib as M
 from astlib import find_all, find_first, show, show_pat, quotes_in, tok_text
-from rules.common import flat, flatp, has, same
+from rules.common import flat, flatp, has, same, xquotes
 
 EXPLANATION = (
     "Static structural analysis (MIR taint/sink facts for the ssr and hydrate configurations, syntax facts, generator "
@@ -163,7 +163,7 @@ def r2_who(ctx):
         r.missing("create_locale_type_inner")
         return r
     regs = []
-    for q in quotes_in(fn.body):
+    for q in xquotes(fn.body):
         tt = flat(tok_text(q["tokens"]))
         if "TranslationUnit>::register()" in tt:
             regs.append(tt)
